@@ -130,6 +130,12 @@ class Impl:
                 return None
             if name == "get":
                 return self.mat(st[args[0]])
+            if name == "same":
+                # write back what was just read (the read-modify-write of the REST layer and of the history): a get, as far as
+                # the mapping is concerned
+                v = st[args[0]]
+                st[args[0]] = v
+                return self.mat(st[args[0]])
             if name == "cget":
                 return self.mat(st.get_cached_view(args[0], SENT))
             if name == "del":
@@ -277,7 +283,7 @@ def run_impl(S, fr, case, tmpdir):
                     laws.append("op %d delete of a present key failed: %s" % (i, e))
                 sp.pop(args[0], None)
                 note(c, args[0])
-        elif name == "get":
+        elif name in ("get", "same"):
             if args[0] in sp and o != {"v": norm(sp[args[0]])}:
                 laws.append("op %d get(%s) = %s but the last write was %s" % (i, args[0], cj(o), cj(sp[args[0]])))
             if args[0] not in sp and not redis and o != {"err": "KeyError"}:
@@ -329,7 +335,8 @@ def run_impl(S, fr, case, tmpdir):
 # --------------------------------------------------------------------------- the model
 
 def model_line(case, quirks):
-    m = {"kind": case["kind"], "q": {q: True for q in quirks}, "ops": case["ops"]}
+    m = {"kind": case["kind"], "q": {q: True for q in quirks},
+         "ops": [([op[0], "get"] + op[2:]) if op[1] == "same" else op for op in case["ops"]]}
     if case["kind"] == "json":
         f = case["file"]
         m["file"] = {"t": f["t"], "j": f["j"]} if f["t"] == "doc" else {"t": f["t"]}
@@ -421,8 +428,12 @@ def rand_ops(rng, n, nclients, is_list_of, anyjson, redis):
                 ops.append([c, "app", k, copy.deepcopy(rng.choice(ITEMS))])
             else:
                 ops.append([c, "upd", k, rng.choice(FIELDS), copy.deepcopy(rng.choice(ITEMS))])
-        elif r < 0.46:
+        elif r < 0.42:
             ops.append([c, "get", k])
+        elif r < 0.46:
+            # (Redis stores only: there re-assigning the live view that was read is a no-op by design; a JSONStore writes its
+            # file on every assignment, which under the open findings C20-F2/F3 is not a plain read)
+            ops.append([c, "same" if redis else "get", k])
         elif r < 0.62:
             ops.append([c, "cget", k])
         elif r < 0.70:
